@@ -33,7 +33,7 @@ def main():
         m = re.match(r"fixed: property=(\S+) (\S+) (.*)", s)
         lines.append("| %s | %s | %s |" % (m.group(1), m.group(2), m.group(3).replace("|", "\\|")))
     fixed = "\n".join(lines)
-    lines = ["| seed | change | needs | first run | now caught by | note |", "|---|---|---|---|---|---|"]
+    lines = ["| seed | change | needs | first run | caught by (last run of tools/seed_all.py) | note / last run |", "|---|---|---|---|---|---|"]
     for p in sorted(glob.glob(os.path.join(VERIF, "seeded", "*", "meta.json"))):
         m = json.load(open(p))
         lv = m.get("lead_verification", {})
@@ -41,8 +41,15 @@ def main():
         lines.append("| %s | %s | %s | %s | %s | %s |" % (
             sid, str(m.get("summary", "")).replace("|", "\\|")[:300], str(m.get("needs", "")).replace("|", "\\|")[:300],
             lv.get("status_at_first_run", ""), ", ".join(lv.get("detected_by", [])) or "-",
-            (lv.get("status_now") or lv.get("note") or "").replace("|", "\\|")[:300]))
+            ((lv.get("status_now") or lv.get("note") or "") + " // " + lv.get("status_last_run", "")).replace("|", "\\|")[:420]))
     seeds = "\n".join(lines)
+    lines = ["| id | behaviour-preserving change | checks run | result |", "|---|---|---|---|"]
+    for p in sorted(glob.glob(os.path.join(VERIF, "benign", "*", "meta.json"))):
+        m = json.load(open(p))
+        lv = m.get("lead_verification", {})
+        lines.append("| %s | %s | %s | %s |" % (os.path.basename(os.path.dirname(p)), str(m.get("summary", "")).replace("|", "\\|")[:300],
+                                           m.get("property"), lv.get("status_last_run", "not run").replace("|", "\\|")[:200]))
+    benign = "\n".join(lines)
     lines = ["| check | spec module | technique | assumptions / bounds (level_note) |", "|---|---|---|---|"]
     for path in sorted(glob.glob(os.path.join(VERIF, "checks", "c[0-9]*.py"))):
         mod = importlib.import_module("checks." + os.path.basename(path)[:-3])
@@ -55,6 +62,8 @@ def main():
     doc = block("FINDINGS", findings, doc)
     doc = block("FIXED", fixed, doc)
     doc = block("SEEDS", seeds, doc)
+    if "<!-- BEGIN BENIGN -->" in doc:
+        doc = block("BENIGN", benign, doc)
     open(path, "w").write(doc)
     print("DESIGN.md tables regenerated")
 
